@@ -37,6 +37,12 @@ pub open spec fn consts_match<B: BlockProvider, N: NotificationService, P: Payme
 //    C12/C07: a policy rejection requested by handle_htlc is answered to the whole set with exactly
 //    the failure that was requested (it carries the configured policy)
       old(w).fail_received is Some ==> Some(resp_abs(resp)) == old(w).fail_received
+//@ requires#fresh_payment_fails_generically_only_after_the_whole_timeout [C11,C12]
+//    C11: for a set with no earlier attempt a temporary trampoline failure that is neither the answer
+//    to a requested policy rejection nor the result of an attempt of ours is given only after the
+//    timer has run the whole (non-zero) MPP timeout
+      (resp is Fail && resp->failure_message@ == seq![0x20u8, 25u8] && old(w).fresh_start && !old(w).attempted
+          && old(w).fail_received is None && old(w).mpp_timeout_ns > 0) ==> old(w).slept_ns == old(w).mpp_timeout_ns
 //@ requires#never_continue [C06]
       !(resp is Continue)
 //@ ensures#released [C06,C09,C07]
@@ -58,7 +64,7 @@ pub open spec fn consts_match<B: BlockProvider, N: NotificationService, P: Payme
 //@ requires#start_from_any_durable_image [C02,C05,C08,C09]
 //    a (re)start: ANY world that satisfies only the durable invariant
       inv(*old(w)) && !old(w).released && old(w).resolved is None && !old(w).pay_running
-      && !old(w).lock_held && !old(w).rpc_under_lock && !old(w).attempted && old(w).fail_received is None
+      && !old(w).lock_held && !old(w).rpc_under_lock && !old(w).attempted && old(w).fail_received is None && old(w).slept_ns == 0 && !old(w).fresh_start
 //@ requires#consts
       consts_match(*old(w), trampoline, *params)
 //@ ensures#answered_exactly_once [C06,C09,C07]
@@ -73,4 +79,7 @@ pub open spec fn consts_match<B: BlockProvider, N: NotificationService, P: Payme
 //    a Succeeded record settles the HTLCs from the recorded preimage
       store_of(*old(w)) is Succeeded ==>
           final(w).resolved == Some(RespAbs::Resolve { key: store_of(*old(w))->preimage })
+//@ proof after_stmt /^let state = match params\.store\.fetch_payment_info/
+//    history variable: was there an earlier attempt on record when this lifecycle started?
+      ghost_set_fresh(w, state is Free);
 //@ end
